@@ -29,8 +29,10 @@ type replayFile struct {
 }
 
 var (
-	rf     *replayFile
-	cursor int
+	rf          *replayFile
+	cursor      int
+	clockCursor int
+	lastClock   int64
 )
 
 // Vacuous is panicked when a replayed input violates an assumption.
@@ -59,6 +61,9 @@ func load() {
 
 func next(name, kind string) string {
 	load()
+	for cursor < len(rf.Inputs) && rf.Inputs[cursor].Kind == "clock" {
+		cursor++ // clock readings are a stream of their own (ReplayNow)
+	}
 	if cursor >= len(rf.Inputs) {
 		panic(Vacuous{"replay ran out of recorded inputs at " + name})
 	}
@@ -71,7 +76,31 @@ func next(name, kind string) string {
 }
 
 // Reset restarts the replay cursor (used by the native replay driver).
-func Reset() { rf = nil; cursor = 0 }
+func Reset() { rf = nil; cursor = 0; clockCursor = 0; lastClock = 0 }
+
+// SymbolicClock makes every time.Now() of the code under test an arbitrary
+// instant not earlier than the previous one (engine); natively the recorded
+// instants are replayed through ReplayNow.
+func SymbolicClock() {}
+
+// ReplayNow is what the replay build calls instead of time.Now() in the server
+// packages when the counterexample contains clock readings: the next recorded
+// instant (the last one again when the recording is exhausted).
+func ReplayNow() time.Time {
+	load()
+	for clockCursor < len(rf.Inputs) && rf.Inputs[clockCursor].Kind != "clock" {
+		clockCursor++
+	}
+	if clockCursor < len(rf.Inputs) {
+		v, _ := strconv.ParseInt(rf.Inputs[clockCursor].Value, 10, 64)
+		clockCursor++
+		lastClock = v
+	}
+	if lastClock == 0 {
+		return time.Now()
+	}
+	return time.Unix(0, lastClock)
+}
 
 func U64(name string) uint64 { v, _ := strconv.ParseUint(next(name, "u64"), 10, 64); return v }
 func U32(name string) uint32 { v, _ := strconv.ParseUint(next(name, "u32"), 10, 32); return uint32(v) }
